@@ -1,7 +1,7 @@
 CONSTANTS
   Towers = {"t1", "t2"}
   Locators = {"l1", "l2", "l3", "l4"}
-  DEVIATIONS = {"S15", "S18", "S19", "S20", "S21"}
+  DEVIATIONS = {"S15", "S18", "S19", "S20", "S21", "S22"}
   MINB = 240
   SLACK = 2500
   CAP = 5000
